@@ -955,6 +955,7 @@ def alloc_check(prop, tier):
                 {"scenario": sc, "trace_rejected_at": reached, "first_unmatched_event": pero[sid][reached] if reached < len(pero[sid]) else None,
                  "events": pero[sid][max(0, reached - 6):reached + 2]})
     run.sim_part("Windows allocator", lambda: windows_alloc_part(run, tier))
+    run.sim_part("macOS / Linux-arm64 allocators joined with their encoders", lambda: platform_alloc_join(run, "C11", ("macos-a64", "macos-x64", "linux-a64"), tier))
     return run.finish()
 
 
@@ -998,6 +999,60 @@ def platform_part(run, prop, tier):
     if not need <= hows:
         raise ToolError("vacuity guard: platform primitives seen: %s" % sorted(hows))
     run.extra["platform_variants"] = {"runs": len(scen), "accepted": len(tv["accepted"]), "primitives": sorted(hows)}
+
+
+def platform_alloc_join(run, prop, variants, tier):
+    """the allocator of another platform (common.rs compiled for it, simulated address space) joined with that platform's
+    entry-branch encoder: whatever the allocator returns -- window edges, nothing free, the kernel answering elsewhere or, for
+    a request without a hint, far away -- must be reached by the entry the encoder then writes"""
+    G = 1 << 30
+    scen = []
+    for variant in variants:
+        rpages = (0x80000000 if variant.startswith("macos") else 0x8000000) // 4096
+        for src in ((0x1_0000_4ff8 & ~3, 0x10_0000) if tier == "quick" else (0x1_0000_4000, 0x1_0000_4ff8 & ~3, 0x7f00_1234_5000, 0x10_0000)):
+            for fd in ([], [rpages - 1], [rpages], [-rpages], [-rpages - 1], [1], [-1], [rpages - 1, -rpages]):
+                for elsewhere, null_answer in ((0, 0), (src + 5 * G, 0), (0, src + 5 * G), (src + 9 * G + 0x3000, src - 6 * G if src > 6 * G else src + 6 * G)):
+                    if tier == "quick" and len(fd) == 1 and elsewhere and fd[0] not in (rpages, -rpages - 1):
+                        continue
+                    scen.append({"id": len(scen) + 1, "mode": "alloc", "variant": variant, "src": src, "free_deltas": fd,
+                                 "elsewhere": elsewhere & ~0xfff, "null_answer": null_answer & ~0xfff})
+    groups, order, _ = vlib.run_harness("platsim", scen, "platalloc_" + prop, timeout=3000)
+    cases, outcomes = [], {"ok": 0, "panic": 0}
+    for sc in scen:
+        end = next((e for e in groups.get(sc["id"], []) if e["ev"] == "PAllocEnd"), None)
+        run.note_case("platform allocator %s src=%#x free=%s elsewhere=%#x null=%#x" % (sc["variant"], sc["src"], sc["free_deltas"], sc["elsewhere"], sc["null_answer"]))
+        if end is None:
+            run.violation("%s platform allocator %s: no result" % (prop, sc["variant"]), {"scenario": sc})
+            continue
+        outcomes[end["outcome"]] += 1
+        if not end["only_result_held"]:
+            run.violation("%s platform=%s allocator left %d mapping(s) behind besides its result (src=%#x free=%s elsewhere=%#x)" % (
+                prop, sc["variant"], end["held"], sc["src"], sc["free_deltas"], sc["elsewhere"]), {"scenario": sc, "end": end})
+        if end["outcome"] == "ok":
+            tramp = int.from_bytes(bytes(end["addr"]), "little")
+            isa = {"macos-a64": "a64-macos", "linux-a64": "a64-linux", "windows-a64": "a64-linux"}.get(sc["variant"], "x64-sim")
+            cases.append({"isa": isa, "kind": "jump", "src": sc["src"] & ~3 if isa.startswith("a64") else sc["src"], "tramp": tramp,
+                          "fake": 0x1234567890, "v": 0, "variant": sc["variant"], "layout": sc})
+    if outcomes["ok"] == 0 or outcomes["panic"] == 0:
+        raise ToolError("vacuity guard: platform allocator outcomes %s" % outcomes)
+    g2, o2, _ = vlib.run_harness("sim", [{"id": 1, "cases": cases}], "sim_platjoin_" + prop, timeout=600)
+    per = []
+    for cse, e in zip(cases, g2.get(1, [])):
+        e = dict(e)
+        e["alloc_accepts"] = True
+        per.append((len(per) + 1, [e]))
+    cfgs = tlc.make_cfg("Trace_Sim", {"Props": '{"%s", "C11", "ALL"}' % prop}, "Trace_Sim_platjoin_" + prop)
+    tv2 = tlc.validate_traces("Trace_Sim", cfgs, per, WORK, "trace_sim_platjoin_" + prop, timeout=600)
+    run.traces += len(tv2["accepted"])
+    run.states += tv2["states"]
+    run.transitions += tv2["transitions"]
+    for sid, ev1 in per:
+        if sid not in tv2["accepted"]:
+            cse = cases[sid - 1]
+            run.violation("%s platform=%s d=%+#x accepted-by-allocator not-reached-by-encoder" % (prop, cse["variant"], cse["tramp"] - cse["src"]),
+                          {"layout": cse["layout"], "event": {k: ev1[0].get(k) for k in ("outcome", "msg", "entry")}})
+    run.extra.setdefault("platform_allocator_join", {})[",".join(variants)] = {"layouts": len(scen), "outcomes": outcomes, "encoder_cases": len(cases),
+                                                                              "encoder_accepted": len(tv2["accepted"])}
 
 
 def windows_alloc_part(run, tier):
@@ -1486,6 +1541,8 @@ def a64_check(prop, tier):
     run.extra["sim_cases"] = {"cases": len(cases), "validated": nev, "unknown_instruction_words": unknown}
     ev0 = groups.get(1, [{}])[0]
     run.sample({k: ev0.get(k) for k in ("isa", "kind", "src", "tramp", "fake", "entry", "trampb", "outcome")})
+    # the encoders have no range test of their own on macOS: what keeps their input in range is that platform's allocator
+    platform_alloc_join(run, "C15", ("macos-a64", "linux-a64"), tier)
     return run.finish()
 
 
